@@ -551,6 +551,18 @@ def run_int(ctx, cfg, start, end):
     tag = ("/" + cfg["tag"]) if cfg["tag"] else ""
     dcl = "d1" if d == 1 else "d>=2"
     done = False
+    other = cfg.get("_sib_int")
+    if other is None:
+        cand = [c for c in configs() if c["name"] != cfg["name"] and c["d"] == d and c["integral"] is not None
+                and c["name"].split("/")[0].split("(")[0] == cfg["name"].split("/")[0].split("(")[0]]
+        other = cfg["_sib_int"] = cand[0] if cand else False
+    if other and (spec["mode"] == "analytic" or d <= 2):
+        # a differently parameterised instance of the same class answers the same box first; it must not influence f
+        try:
+            with quiet():
+                other["make"]().getAnalyticSolutionIntegral(list(start), list(end))
+        except Exception:
+            pass
     with ctx.guard("B.int.returns", site, "raises-" + dcl + tag):
         with quiet():
             val = f.getAnalyticSolutionIntegral(list(start), list(end))
